@@ -332,35 +332,40 @@ func ruleProvCrit(c *Ctx, r *Rep) {
 			r.Check(ok && owner == want, "builder-passes-own-flag|"+c.FuncKey(fn)+"|"+callee.Name(), c.Pos(ci.Pos()), "the critical argument is the Critical field of the extension config being built ("+want+")", sprintf("field %v of %s", f, owner))
 		}
 	}
-	// raw extensions: the handler's literal takes Critical from the reflected Critical field
+	// raw extensions: whatever builder the handler returns carries the reflected field named Critical
+	pv := c.newProv()
 	for _, fn := range c.Funcs {
+		isHandler := false
 		for _, ci := range callsIn(fn) {
-			if calleeFullName(ci) != "(reflect.Value).Bool" {
-				continue
+			if calleeFullName(ci) == "(reflect.Value).Bool" {
+				isHandler = true
 			}
-			src, ok := ci.Common().Args[0].(*ssa.Call)
-			name := ""
-			if ok && calleeFullName(src) == "(reflect.Value).FieldByName" {
-				if k, isK := src.Call.Args[1].(*ssa.Const); isK && k.Value != nil {
-					name = constant.StringVal(k.Value)
-				}
-			}
-			// every pkix.Extension literal in fn stores this value into Critical
-			n, good := 0, 0
-			for _, b := range fn.Blocks {
-				for _, ins := range b.Instrs {
-					if st, isSt := ins.(*ssa.Store); isSt {
-						if fa, isFa := st.Addr.(*ssa.FieldAddr); isFa && fieldOfAddr(fa).Name() == "Critical" && typeIs(fa.X.Type().Underlying().(*types.Pointer).Elem(), "crypto/x509/pkix", "Extension") {
-							n++
-							if st.Val == ssa.Value(ci.(*ssa.Call)) {
-								good++
-							}
-						}
-					}
-				}
-			}
-			r.Check(name == "Critical" && n > 0 && n == good, "raw-extension-critical|"+c.FuncKey(fn), c.Pos(ci.Pos()), "raw extensions take Critical from the reflected field named Critical", sprintf("field %q, %d of %d literals", name, good, n))
 		}
+		if !isHandler || fn.Signature.Results().Len() == 0 {
+			continue
+		}
+		fk := c.FuncKey(fn)
+		n, good := 0, 0
+		found := ""
+		for _, ret := range returnsOf(fn) {
+			for _, o := range pv.Origins(retResults(ret)[0]) {
+				if o == "K(nil)" {
+					continue
+				}
+				n++
+				crit := fieldsOf([]string{o}, "Extension.Critical")
+				if len(crit) == 1 && strings.HasPrefix(crit[0], "zero.") {
+					crit = fieldsOf(fieldsOf([]string{o}, "Extension"), "Critical") // nested literal form
+				}
+				okOne := len(crit) == 1 && strings.HasPrefix(crit[0], "(reflect.Value).Bool((reflect.Value).FieldByName(reflect.ValueOf(P("+fk+".") && strings.HasSuffix(crit[0], "|K(\"Critical\")))")
+				if okOne {
+					good++
+				} else {
+					found = strings.Join(crit, " , ")
+				}
+			}
+		}
+		r.Check(n > 0 && n == good, "raw-extension-critical|"+fk, c.FnPos(fn), "raw extensions take Critical from the reflected field named Critical", sprintf("%d of %d returned builders; %s", good, n, found))
 	}
 }
 
